@@ -52,6 +52,9 @@ type LemmaInfo struct {
 	MayNil []string
 	Shape  map[string]int
 	OpaqueFns []string
+	Inlines []string // callees verified through their bodies ("*" = every callee)
+	SplitParam string
+	SplitLo, SplitHi int64
 }
 
 func (p *Loaded) info(fn *ssa.Function) *FuncInfo {
@@ -215,6 +218,19 @@ func parseContracts(file string, pkgDir string) ([]*FuncSpec, error) {
 		case "let":
 			cur.Lets = append(cur.Lets, rest)
 			lastExpr = &cur.Lets[len(cur.Lets)-1]
+		case "split":
+			// split <scalar parameter> <lo>..<hi>: one verification run per value (complete case analysis)
+			var lo, hi int64
+			if len(fields) != 3 {
+				return nil, fmt.Errorf("%s:%d: bad split clause", file, ln)
+			}
+			if _, err := fmt.Sscanf(fields[2], "%d..%d", &lo, &hi); err != nil || hi < lo || hi-lo > 4096 {
+				return nil, fmt.Errorf("%s:%d: bad split range %q", file, ln, fields[2])
+			}
+			cur.SplitParam, cur.SplitLo, cur.SplitHi = fields[1], lo, hi
+		case "inlines":
+			// callees verified through their bodies (not their contracts) when proving this function
+			cur.Inlines = append(cur.Inlines, fields[1:]...)
 		case "inline":
 			cur.Inline = true
 		case "pure":
@@ -865,6 +881,16 @@ func (p *Loaded) bindSpecs() {
 						if strings.HasPrefix(t, "opaque:") {
 							li.OpaqueFns = append(li.OpaqueFns, strings.Fields(strings.TrimPrefix(t, "opaque:"))...)
 						}
+						if strings.HasPrefix(t, "inline:") {
+							li.Inlines = append(li.Inlines, strings.Fields(strings.TrimPrefix(t, "inline:"))...)
+						}
+						if strings.HasPrefix(t, "split:") {
+							fs := strings.Fields(strings.TrimPrefix(t, "split:"))
+							if len(fs) == 2 {
+								li.SplitParam = fs[0]
+								fmt.Sscanf(fs[1], "%d..%d", &li.SplitLo, &li.SplitHi)
+							}
+						}
 						if strings.HasPrefix(t, "maynil:") {
 							li.MayNil = append(li.MayNil, strings.Fields(strings.TrimPrefix(t, "maynil:"))...)
 						}
@@ -903,7 +929,8 @@ func (p *Loaded) findMutableGlobals() {
 		if fn.Blocks == nil {
 			continue
 		}
-		isInit := fn.Name() == "init" && fn.Signature.Recv() == nil && fn.Parent() == nil
+		// the package initialiser and the init functions written in the source (init#1, init#2, ...)
+		isInit := (fn.Name() == "init" || strings.HasPrefix(fn.Name(), "init#")) && fn.Signature.Recv() == nil && fn.Parent() == nil
 		for _, b := range fn.Blocks {
 			for _, ins := range b.Instrs {
 				switch i := ins.(type) {
